@@ -23,6 +23,8 @@ import (
 	"os"
 	"sort"
 	"strings"
+	"sync"
+	"time"
 
 	"cuelabs.dev/go/oci/ociregistry"
 	"cuelabs.dev/go/oci/ociregistry/ociclient"
@@ -44,7 +46,7 @@ type repoDesc struct {
 }
 
 type stackDesc struct {
-	Kind     string     `json:"kind"` // mem script hop select sub unify debug
+	Kind     string     `json:"kind"` // mem script funcs hop select sub unify debug
 	Repos    []repoDesc `json:"repos,omitempty"`
 	Items    []string   `json:"items,omitempty"`
 	ErrCode  string     `json:"err_code,omitempty"`
@@ -73,7 +75,7 @@ type input struct {
 
 func (s *stackDesc) shape() string {
 	switch s.Kind {
-	case "mem", "script":
+	case "mem", "script", "funcs":
 		if s.ErrCode != "" {
 			return "script!"
 		}
@@ -106,7 +108,7 @@ func (s *stackDesc) kinds(set map[string]bool) {
 
 func (s *stackDesc) hops() int {
 	switch s.Kind {
-	case "mem", "script":
+	case "mem", "script", "funcs":
 		return 0
 	case "unify":
 		return max(s.A.hops(), s.B.hops())
@@ -240,6 +242,8 @@ func build(s *stackDesc, b *built) ociregistry.Interface {
 		return r
 	case "script":
 		return scripted(s.Items, s.ErrCode)
+	case "funcs":
+		return &ociregistry.Funcs{}
 	case "hop":
 		inner := build(s.Inner, b)
 		srv := httptest.NewServer(ociserver.New(inner, &ociserver.Options{
@@ -302,28 +306,71 @@ func errTerm(err error) string {
 	return "ENone"
 }
 
+// A listing in this harness never holds more than a few dozen names: an iterator that makes
+// more than maxCalls calls, or that does not return within watchdog, is a runaway (for
+// instance a pager that asks for the same page for ever).  It is recorded as a junk entry,
+// the consumer declines from then on, and the case is judged like any other.
+const maxCalls = 120
+const watchdog = 8 * time.Second
+
+// number of iterators abandoned by the watchdog so far; after maxStuck no further case is run
+var stuck = 0
+
+const maxStuck = 3
+
 // drain runs the iterator against the consumer that declines at its k-th call (k = 0: never).
-func drain[T any](it ociregistry.Seq[T], k int, show func(T) string, isZero func(T) bool) (log []entry) {
-	n := 0
-	panicked, pv := hx.Recover(func() {
-		it(func(x T, err error) bool {
-			n++
-			ans := n != k
-			switch {
-			case err != nil && !isZero(x):
-				log = append(log, entry{Bad: "item together with an error: " + show(x), Answer: ans})
-			case err != nil:
-				log = append(log, entry{Err: errTerm(err), Answer: ans})
-			default:
-				log = append(log, entry{Item: show(x), Answer: ans})
-			}
-			return ans
+func drain[T any](it ociregistry.Seq[T], k int, show func(T) string, isZero func(T) bool) []entry {
+	var mu sync.Mutex
+	var log []entry
+	abandoned := false
+	done := make(chan struct{})
+	go func() {
+		defer close(done)
+		n := 0
+		panicked, pv := hx.Recover(func() {
+			it(func(x T, err error) bool {
+				mu.Lock()
+				defer mu.Unlock()
+				if abandoned {
+					return false
+				}
+				n++
+				if n > maxCalls {
+					if n == maxCalls+1 {
+						log = append(log, entry{Bad: fmt.Sprintf("runaway: more than %d calls", maxCalls)})
+					}
+					return false
+				}
+				ans := n != k
+				switch {
+				case err != nil && !isZero(x):
+					log = append(log, entry{Bad: "item together with an error: " + show(x), Answer: ans})
+				case err != nil:
+					log = append(log, entry{Err: errTerm(err), Answer: ans})
+				default:
+					log = append(log, entry{Item: show(x), Answer: ans})
+				}
+				return ans
+			})
 		})
-	})
-	if panicked {
-		log = append(log, entry{Bad: "panic: " + pv})
+		if panicked {
+			mu.Lock()
+			log = append(log, entry{Bad: "panic: " + pv})
+			mu.Unlock()
+		}
+	}()
+	select {
+	case <-done:
+	case <-time.After(watchdog):
+		mu.Lock()
+		abandoned = true
+		stuck++
+		log = append(log, entry{Bad: "the iterator did not return within " + watchdog.String()})
+		mu.Unlock()
 	}
-	return log
+	mu.Lock()
+	defer mu.Unlock()
+	return append([]entry{}, log...)
 }
 
 func runQuery(r ociregistry.Interface, q queryDesc, start string, k int) []entry {
@@ -367,6 +414,8 @@ func coqStack(s *stackDesc) string {
 		return "(KMem " + hx.List(repos) + ")"
 	case "script":
 		return fmt.Sprintf("(KScript %s %s)", hx.Bs(s.Items), coqErr(s.ErrCode))
+	case "funcs":
+		return "KFuncs"
 	case "hop":
 		return fmt.Sprintf("(KHop %s {| so_max := %s; so_omit_link := %s |} %s)", hx.Z(int64(s.PageSize)), hx.Z(int64(s.Max)), hx.Bool(s.OmitLink), coqStack(s.Inner))
 	case "select":
@@ -431,6 +480,9 @@ func runCase(in input) (coq string, obs []observed, panicMsg string) {
 		log := runQuery(reg, in.Query, start, k)
 		obs = append(obs, observed{k, log})
 		runs = append(runs, fmt.Sprintf("(%d, %s)", k, coqLog(log)))
+		if len(log) > 0 && log[len(log)-1].Bad != "" {
+			break // a runaway or a panic: the other consumers would only repeat it
+		}
 	}
 	coq = fmt.Sprintf("{| c_stack := %s; c_query := %s; c_start := %s; c_runs := %s |}",
 		coqStack(in.Stack), coqQuery(in.Query), hx.B(start), hx.List(runs))
@@ -543,6 +595,9 @@ type level struct {
 }
 
 func (g *gen) leaf(lv level) *stackDesc {
+	if g.r.Intn(40) == 0 {
+		return &stackDesc{Kind: "funcs"}
+	}
 	scriptP := 12
 	if lv.meta {
 		scriptP = 100
@@ -781,6 +836,9 @@ func main() {
 	out := hx.NewOut(cfg, "Obs.C05")
 	out.ShardMax = 200
 	add := func(in input, origin string) {
+		if stuck >= maxStuck {
+			return // iterators keep hanging: what has been recorded is enough to report
+		}
 		in.Start = fmt.Sprintf("%q", mustHex(in.StartHex))
 		coq, obs, _ := runCase(in)
 		shape := in.Stack.shape()
@@ -940,6 +998,29 @@ func main() {
 			}
 			add(input{Stack: hop(p, 1, false, g.leafMem(lv)), Query: queryDesc{Kind: q, Repo: lv.repo}, StartHex: "", Ks: []int{0, 1, 2}}, "refused")
 			add(input{Stack: hop(3, 0, true, hop(p, 1, false, g.leafMem(lv))), Query: queryDesc{Kind: q, Repo: lv.repo}, StartHex: "", Ks: []int{0, 1, 2}}, "refused")
+		}
+	}
+	// --- the function table with no field set, alone and under every wrapper
+	for _, q := range []string{"repos", "tags", "refs"} {
+		lv := level{q: q, repo: "a/b", names: g.subset(tagPool, 3)}
+		if q == "repos" {
+			lv.repo, lv.names = "", g.subset(repoPool, 3)
+		}
+		if q == "refs" {
+			lv.names = []string{"1", "2", "3"}
+		}
+		fn := &stackDesc{Kind: "funcs"}
+		for _, st := range []*stackDesc{
+			fn,
+			hop(2, 0, false, fn),
+			{Kind: "select", Allowed: []string{"a/b"}, Inner: fn},
+			{Kind: "sub", Prefix: "p", Inner: fn},
+			{Kind: "debug", Inner: fn},
+			{Kind: "unify", A: fn, B: g.leafMem(lv)},
+			{Kind: "unify", A: g.leafMem(lv), B: fn},
+			{Kind: "unify", A: fn, B: fn},
+		} {
+			add(input{Stack: st, Query: queryDesc{Kind: q, Repo: lv.repo}, StartHex: "", Ks: []int{0, 1, 2, 3}}, "funcs-unset")
 		}
 	}
 	// --- random stacks
